@@ -2,7 +2,9 @@
 Theorems: coq/Props_C03.v (tag_page over the index model, last-writer-wins through Index.v).
 Tie: differential run of request histories on the real server and the extracted model,
 plus the direct oracle below (a reference tag map kept by the harness)."""
+import json
 import apicheck
+import oracles
 from api import *
 import gen
 
@@ -14,6 +16,10 @@ PROFILE = dict(blob=1, chunked=0.3, mount=0.2, image=5, index=2, artifact=1, mre
 
 def go_lt(a, b):
     return a.encode() < b.encode()
+
+
+def res_mt(st, j):
+    return (j or {}).get("mediaType") or ((st["impl"].get("headers") or {}).get("Content-Type") or [""])[0]
 
 
 def oracle(ctx, case, io):
@@ -33,6 +39,16 @@ def oracle(ctx, case, io):
             pr.add(d)
             if gen.is_tag_py(st["arg"]):
                 tm[st["arg"]] = d
+            # an accepted index references its children again (their blobs were checked present): they are addressable by digest
+            try:
+                j = json.loads(st["body"].decode("utf-8"))
+                kids = [x.get("digest") for x in (j.get("manifests") or []) if isinstance(x, dict)] if isinstance(j, dict) else []
+            except Exception:
+                kids = []
+            if oracles.kind_of_mt(res_mt(st, j if kids else None)) == "index" or kids:
+                for x in kids:
+                    if isinstance(x, str):
+                        pr.add(x)
         elif kind == "mdel" and res["status"] == 202:
             if gen.is_tag_py(st["arg"]):
                 tm.pop(st["arg"], None)
